@@ -29,6 +29,10 @@ def r1_entry_names_are_data(ctx):
         if not srcs:
             continue
         fg = FlowGraph(ws, f)
+        san_nodes = set()
+        for b_, i_, t_ in f.calls():
+            if cname(t_) == "sanitize_file_path" and t_.get("dest"):
+                san_nodes.add(fg.key(b_, t_["dest"]))
         for (sb, si, st) in srcs:
             n += 1
             bad = []
@@ -46,7 +50,11 @@ def r1_entry_names_are_data(ctx):
                     sl = fg.back_from_operand(b, a)
                     if any(cb is sb and ci == si for cb, ci, _ct in sl.calls):
                         nsinks += 1
-                        if not any(cname(ct) == "sanitize_file_path" for _b, _i, ct in sl.calls):
+                        # the sanitiser must sit on EVERY value-flow path from the entry name to
+                        # the sink: cut the results of sanitize_file_path out of the graph and
+                        # the entry name must no longer reach the path operation
+                        sl2 = fg.back_from_operand(b, a, stop=lambda n_: n_ in san_nodes)
+                        if any(cb is sb and ci == si for cb, ci, _ct in sl2.calls):
                             bad.append((b, i, nm))
             k = "%s|filename-to-path" % f.root
             if bad:
